@@ -11,6 +11,10 @@ PKG = os.path.join(core.REPO, "chainimport")
 # stores' flat files so that a crash can fall INSIDE a store call of the importer
 HOOK = os.path.join(core.VERIF, "harness", "overlay", "chainimport", "zz_verif_import_headerfs_hook.go")
 HOOK_AT = os.path.join(core.REPO, "headerfs", "zz_verif_import_hook.go")
+# overlay-only setter of the CFSync family for the unexported table of hard-coded filter-header checkpoints
+# (package chainsync): gives the driver's test networks a checkpoint at a chosen height
+CKHOOK = os.path.join(core.VERIF, "harness", "overlay", "chainsync", "zz_verif_cfsync_hook.go")
+CKHOOK_AT = os.path.join(core.REPO, "chainsync", "zz_verif_cfsync_hook.go")
 
 READY = True
 PROPERTIES = ["C14"]
@@ -43,7 +47,8 @@ MANIFEST = {
 }
 
 PROPS = {
-    "C14": ["SuccessMeansEqual", "SuccessChainValid", "SecondImportNoop",
+    "C14": ["SuccessMeansEqual", "SuccessChainValid", "SuccessAgreesWithFile", "SuccessFilterCheckpoint",
+            "SecondImportNoop",
             "FailureLeavesUsable", "FailureLeavesConsistent", "FailureNothingUnvalidated",
             # the import crash points of C08 (see notes/importer.md)
             "ImportCrashStoresOpen", "ImportCrashContentLegal", "ImportCrashNoTornEntry",
@@ -84,6 +89,10 @@ def label(act):
             dev += "+fy@%d" % c["fy"]
         if c.get("fk", "none") != "none":
             dev += "+" + c["fk"]
+        if c.get("ck", -1) >= 0:
+            dev += "+ck@%d" % c["ck"]
+        if c.get("cx", 0):
+            dev += "+cancelled"
         return "Begin(s=%d,n=%d,bs=%d,B=%d,F=%d,%s)" % (c.get("s", -1), c.get("n", -1), c.get("bs", -1),
                                                        c.get("hB", -1), c.get("hF", -1), dev)
     s = op
@@ -119,7 +128,7 @@ def run(prop_id, tier, seed, replay=None):
             paths, unreach = core.edge_cover(g, rng)
             core.write_paths(g, paths, pf)
         binary = family.build_overlay_test(PKG, [DRIVER], os.path.join(sc, "chainimport.test"),
-                                           extra_overlay={HOOK_AT: HOOK})
+                                           extra_overlay={HOOK_AT: HOOK, CKHOOK_AT: CKHOOK})
         observed, log = family.run_driver(binary, "TestVerifImportReplay", pf,
                                           os.path.join(sc, "obs.ndjson"), sc,
                                           env_extra={"VERIF_SEED": str(seed)})
